@@ -62,7 +62,7 @@ CHECKS = {
              "(harness/vplatform replaces platform.c); sequential consistency at the granularity of the blocks between scheduling points (the C11 "
              "races on the unsynchronised stop/running flags are not modelled); the shipped devices are replaced by a mock driver (they are C14-C18); "
              "the queue sink.in is the abstract multi-reader log that the ring family (C01-C03) proves channel.c to implement; model scope G1 "
-             "(frame averaging off - the averaging data path is C10's -, stream i uses device pair i, configure/start between acquisitions): logs "
+             "(frame averaging off - the averaging data path is C10's -, the two streams never share a device, configure/start between acquisitions): logs "
              "outside G1 are checked by the independent oracle only. Axioms: none (all theorems closed under the global context).",
         technique="Coq invariant proof over an event-labelled transition system of the runtime (all schedules, by induction over traces); trace-acceptance check of the real runtime under a deterministic scheduler + independent storage/camera oracle"),
     "C06": dict(
@@ -82,7 +82,7 @@ CHECKS = {
              "(harness/vplatform replaces platform.c); sequential consistency at the granularity of the blocks between scheduling points (the C11 "
              "races on the unsynchronised stop/running flags are not modelled); the shipped devices are replaced by a mock driver (they are C14-C18); "
              "the queue sink.in is the abstract multi-reader log that the ring family (C01-C03) proves channel.c to implement; model scope G1 "
-             "(frame averaging off - the averaging data path is C10's -, stream i uses device pair i, configure/start between acquisitions): logs "
+             "(frame averaging off - the averaging data path is C10's -, the two streams never share a device, configure/start between acquisitions): logs "
              "outside G1 are checked by the independent oracle only. Axioms: none (all theorems closed under the global context).",
         technique="Coq invariant proof (monitor cursor/consumption log as a segment of the delivered frames) over all traces; trace-acceptance check with monitoring clients + pixel-hash oracle"),
     "C07": dict(
@@ -107,7 +107,7 @@ CHECKS = {
              "(harness/vplatform replaces platform.c); sequential consistency at the granularity of the blocks between scheduling points (the C11 "
              "races on the unsynchronised stop/running flags are not modelled); the shipped devices are replaced by a mock driver (they are C14-C18); "
              "the queue sink.in is the abstract multi-reader log that the ring family (C01-C03) proves channel.c to implement; model scope G1 "
-             "(frame averaging off - the averaging data path is C10's -, stream i uses device pair i, configure/start between acquisitions): logs "
+             "(frame averaging off - the averaging data path is C10's -, the two streams never share a device, configure/start between acquisitions): logs "
              "outside G1 are checked by the independent oracle only. Axioms: none (all theorems closed under the global context).",
         technique="Coq invariant proof of the post-state of stop/abort over all traces; trace-acceptance check with aborts at arbitrary scheduling points + deadlock detector"),
     "C08": dict(
@@ -131,7 +131,7 @@ CHECKS = {
              "(harness/vplatform replaces platform.c); sequential consistency at the granularity of the blocks between scheduling points (the C11 "
              "races on the unsynchronised stop/running flags are not modelled); the shipped devices are replaced by a mock driver (they are C14-C18); "
              "the queue sink.in is the abstract multi-reader log that the ring family (C01-C03) proves channel.c to implement; model scope G1 "
-             "(frame averaging off - the averaging data path is C10's -, stream i uses device pair i, configure/start between acquisitions): logs "
+             "(frame averaging off - the averaging data path is C10's -, the two streams never share a device, configure/start between acquisitions): logs "
              "outside G1 are checked by the independent oracle only. Axioms: none (all theorems closed under the global context).",
         technique="Coq simulation proof between the runtime model and an independent device life-cycle monitor (all traces of grammar G1); trace-acceptance check + Python life-cycle automaton over arbitrary API programs"),
     "C09": dict(
@@ -151,7 +151,7 @@ CHECKS = {
              "(harness/vplatform replaces platform.c); sequential consistency at the granularity of the blocks between scheduling points (the C11 "
              "races on the unsynchronised stop/running flags are not modelled); the shipped devices are replaced by a mock driver (they are C14-C18); "
              "the queue sink.in is the abstract multi-reader log that the ring family (C01-C03) proves channel.c to implement; model scope G1 "
-             "(frame averaging off - the averaging data path is C10's -, stream i uses device pair i, configure/start between acquisitions): logs "
+             "(frame averaging off - the averaging data path is C10's -, the two streams never share a device, configure/start between acquisitions): logs "
              "outside G1 are checked by the independent oracle only. Axioms: none (all theorems closed under the global context).",
         technique="Coq invariant proof over a transition system with fault events (all schedules, all fault positions); trace-acceptance check with scripted device faults + oracle"),
     "C11": dict(
